@@ -138,8 +138,15 @@ def run(module, cfg, *, workers=16, timeout=900, simulate=None, depth=None,
                 ln for ln in cp.stdout.splitlines()
                 if not ln.startswith(("Parsing file", "Semantic processing",
                                       "Linting of", "Computed ", '<<"')))
+            seen, ded = set(), []
+            for ln in txt.splitlines():
+                if ln.strip() and ln in seen:
+                    continue
+                seen.add(ln)
+                ded.append(ln)
+            txt = "\n".join(ded)
             raise TLCError("TLC failed on %s (rc=%s):\n%s\n%s" % (
-                module, cp.returncode, txt[-3500:], cp.stderr[-1500:]))
+                module, cp.returncode, txt[-3000:], cp.stderr[-1000:]))
         return res
     finally:
         if not keep:
